@@ -463,6 +463,25 @@ def c11(tier, rng, fam='C11'):
                     b.step('ucall', c=99, pay='probe', to=H, hp=[ret(pay='pong')])
                     b.step('adv', ms=H + 1)
                     out.append(b.q().done())
+    # the same many times over on ONE connection: late messages are an everyday event (every handler that returns
+    # early produces them), however many a connection has seen it goes on serving
+    for kind, nstreams, late in (('cs', 70, 1), ('bidi', 40, 2)) + ((('cs', 200, 1),) if tier != 'quick' else ()):
+        b = B(fam, '%d %s streams in a row whose handlers return early with %d message(s) still to come, one connection' % (nstreams, kind, late), ser=True, manual=True)
+        b.step('auto', dir='c2s', on=True)
+        for i in range(nstreams):
+            c = 100 + i
+            b.step('sopen', c=c, kind=kind, hp=[ret(code=7, msg='no')])      # (its trailer is not delivered yet)
+            for j in range(late):
+                b.step('send', c=c, pay='late%d' % j)
+            b.step('dlv', dir='s2c', n=-1)
+            b.step('recv', c=c)
+            if i % 10 == 9:
+                b.step('ucall', c=1000 + i, pay='probe%d' % i, to=H, hp=[ret(pay='pong')], nw=True)
+                b.step('dlv', dir='s2c', n=-1)
+        b.step('auto', dir='s2c', on=True)
+        b.step('ucall', c=99, pay='probe', to=H, hp=[ret(pay='pong')])
+        b.step('adv', ms=H + 1)
+        out.append(b.q().done())
     # a caller that cancels with m responses unread
     for kind in ('bidi', 'ss'):
         for m in range(0, nmax + 1):
@@ -592,7 +611,7 @@ def c12(tier, rng, fam='C12'):
     # the same envelope shape many times in a row (more often than the server has unary workers): nothing a
     # peer repeats may use the server up
     for name in A:
-        for n in ((9, 17) if tier == 'quick' else (8, 9, 10, 17, 40)):
+        for n in ((9, 17, 70) if tier == 'quick' else (8, 9, 10, 17, 40, 70, 150, 300)):
             out.append(scn([(name, 1 + (k % 2 if name not in ('s_body', 's_rawbody') else 0)) for k in range(n)],
                            'repeat %s x%d' % (name, n)))
     for s in syms:
@@ -1371,7 +1390,7 @@ def gate_sweep(tier, rng, fam, sample=None, only=None, gates=None, must=()):
 
 
 def sweep_c14(tier, rng, fam='C14'):
-    return gate_sweep(tier, rng, fam, sample=160 if tier == 'quick' else None)
+    return gate_sweep(tier, rng, fam, sample=160 if tier == 'quick' else None) + end_while_reader_holds_envelope(fam)
 
 
 def sweep_c11(tier, rng, fam='C11'):
